@@ -251,7 +251,8 @@ func (multi *MultiEpoch) handleGetBlock(ctx context.Context, conn *requestContex
 						txNode, err := epochHandler.GetTransactionByCid(ctx, tcid)
 						if err != nil {
 							klog.Errorf("failed to decode Transaction %s: %v", tcid, err)
-							return nil
+							// do not go on with a hole in the list: it is dereferenced below
+							return fmt.Errorf("failed to decode Transaction %s: %w", tcid, err)
 						}
 						mu.Lock()
 						allTransactionNodes[entryIndex][txI] = txNode
